@@ -808,3 +808,32 @@ func (a *E3) Digest() string {
 	}
 	return sb.String()
 }
+
+// calleeNames returns the short names of the in-package functions fn (closures included) may call.
+func (a *E3) calleeNames(fn *ssa.Function) []string {
+	set := map[string]bool{}
+	var walk func(f *ssa.Function)
+	walk = func(f *ssa.Function) {
+		for _, b := range f.Blocks {
+			for _, in := range b.Instrs {
+				if ci, ok := in.(ssa.CallInstruction); ok {
+					for _, cal := range a.Callees(ci.Common()) {
+						if cal.Pkg == a.pkg && a.sum[cal] != nil {
+							set[a.FuncName(cal)] = true
+						}
+					}
+				}
+			}
+		}
+		for _, an := range f.AnonFuncs {
+			walk(an)
+		}
+	}
+	walk(fn)
+	var out []string
+	for n := range set {
+		out = append(out, n)
+	}
+	sort.Strings(out)
+	return out
+}
